@@ -149,7 +149,8 @@ def trusted_scan(text, table):
 GENERIC_TAGS = {None, 'sep', 'requires', 'ensures', 'invariant', 'decreases', 'requires-kw', 'ensures-kw',
                 'invariant-kw', 'decreases-kw', 'invariant_except_break', 'invariant_except_break-kw',
                 'proof', 'R0', 'R0-ret', 'R0-impl', 'R0-binder', 'R0-loophdr', 'R1', 'R2', 'R3', 'R5', 'R5-header',
-                'R8', 'R-subst', 'rename', 'R3-derive', 'loop_ensures', 'loop_ensures-kw'}
+                'R8', 'R-subst', 'rename', 'R3-derive', 'loop_ensures', 'loop_ensures-kw', 'R6', 'R7', 'R9', 'R11', 'R12', 'R13', 'R14',
+                'R0-attr', 'R0-static', 'include'}
 
 
 def _is_verdict(msg):
@@ -278,6 +279,8 @@ def run_unit(unit, tier='quick', seed=0):
     smt_ms = 0
     fn_times = {}
     for sd, r in main_runs:
+        if any('panicked at' in x for x in r['stderr_other']):
+            res['undecided'].append('verus internal error (panic): ' + next(x for x in r['stderr_other'] if 'panicked at' in x)[:200])
         if r['summary'] is None:
             res['undecided'].append(f'verus produced no summary (rc={r["rc"]}): ' + ' | '.join(r['stderr_other'][:3])[:500])
         fails, und = _classify(r['diags'], table, unit, cfg)
